@@ -67,7 +67,7 @@ def driver_models(prog):
     def arr_state(it, a):
         """(arrobj) for struct array at Ptr a; creates backing object on first use"""
         dw = it.user['dw']
-        key = (id(a.obj), a.path)
+        key = (a.obj.id, a.path)
         st = dw.arrays.get(key)
         if st is None:
             o = Obj('arr:' + dw.stage_of_array(a), 'heap')
